@@ -115,10 +115,15 @@ maildir_close(struct maildir *md)
 	if (md->md_flags & MAILDIR_STDIN) {
 		struct maildir_entry me;
 
-		/* Best effort removal of the temporary maildir. */
-		rewinddir(md->md_dir);
-		while (maildir_walk(md, &me) == 1)
-			(void)unlinkat(me.e_dirfd, me.e_path, 0);
+		/*
+		 * Best effort removal of the temporary maildir. The directory
+		 * might not be open if creating the temporary maildir failed.
+		 */
+		if (md->md_dir != NULL) {
+			rewinddir(md->md_dir);
+			while (maildir_walk(md, &me) == 1)
+				(void)unlinkat(me.e_dirfd, me.e_path, 0);
+		}
 		(void)rmdir(md->md_path);
 		(void)rmdir(md->md_root);
 	}
